@@ -28,7 +28,10 @@ def main(argv=None):
     rep = Report(prop)
     try:
         res = mod.run(args.tier, world.seed(), rep)
-    except Exception:
+        from . import peer as _peer
+        if _peer.HARNESS_BUGS:
+            raise RuntimeError(f'harness bug: {_peer.HARNESS_BUGS[0]}')
+    except (Exception, SystemExit):
         traceback.print_exc()
         print(f'HARNESS-ERROR property={prop}', flush=True)
         return 2
